@@ -44,6 +44,16 @@ func (c *Chain) initSets() {
 	c.initialVals = len(flats)
 }
 
+// notePartial: a failed run may have processed slots (and rotated sync committees) before it failed; whoever replays it
+// needs those aggregates too.
+func (c *Chain) notePartial(res *RunResult) {
+	if res.Partial == nil {
+		return
+	}
+	defer func() { recover() }()
+	c.noteState(res.Partial)
+}
+
 // noteState records the sync-committee aggregates a recorded state contains (AGG table), computed independently of zrnt.
 func (c *Chain) noteState(st common.BeaconState) {
 	ss, ok := Unwrap(st).(common.SyncCommitteeBeaconState)
